@@ -5,12 +5,12 @@ import os
 
 import core
 from core import LeanDriver, canon
-from gen import rules
+from gen import rules, viewdict
 import lib_topo as T
 from props import c09
 
 ID = "C07"
-GENERATORS = [rules.generate]
+GENERATORS = [rules.generate, viewdict.generate]
 LEAN_MODULES = ["FimVerif.Proofs.C07", "FimVerif.Drivers.TopoRun"]
 P = "FimVerif.C07."
 THEOREMS = [P + t for t in (
@@ -20,6 +20,10 @@ THEOREMS = [P + t for t in (
     "inv_empty", "invS_iff", "links_only_interfaces", "inv_op", "invD_op", "inv_history_partial", "invD_history_partial",
     "inv_history_from_empty", "invD_history_from_empty", "invN_op", "invN_history_partial", "invN_history_from_empty",
     "inv_setProps", "inv_unsetProp", "inv_addNode",
+    "view_mutators_refused", "view_mutators_complete", "view_lists_immutable", "verdict_not_ok", "view_call_readOnly",
+    "views_cannot_modify", "view_stays_exact",
+    "invD_xop", "inv_xop", "invN_xop", "invD_call", "inv_call", "invN_call", "history_of_step", "invD_calls_partial", "inv_calls_partial",
+    "invN_calls_partial", "invD_calls_from_empty",
     "rename_names_counterexample", "nsAddInterface_names_counterexample", "nsAddInterface_sp_counterexample",
     "addLink_sp_counterexample", "connect_names_counterexample")] + ["FimVerif.Topo." + t for t in (
     "invS_grow", "invD_grow", "invD_dropNode", "invS_mapNodes", "namesOk_mapNodes", "invS_addNode", "invS_nsAddInterface", "invS_addLink",
@@ -27,7 +31,11 @@ THEOREMS = [P + t for t in (
     "invD_nodeAddService", "invD_addComponent", "svcLoop_ok", "svcLoop_invD", "catalog_ok", "invS_addFacility", "invS_addSwitch",
     "invD_addFacility", "invD_addSwitch", "addFacility_shape", "addSwitch_shape", "namesCore_attach", "namesCore_grow_cp_link",
     "namesCore_pushNode", "kids_sub_childrenOf", "sibling_free", "invSN_addComponent", "invSN_addFacility", "invSN_connect",
-    "invSN_addService", "invSN_nodeAddService", "svcLoop_okP", "svcNew_ok_invP", "connect_grow_spec")]
+    "invSN_addService", "invSN_nodeAddService", "svcLoop_okP", "svcNew_ok_invP", "connect_grow_spec",
+    "inv_addChildInterface", "preserves_removeChildInterface", "preserves_unpeer", "preserves_prune", "svcNew_rou", "addService_rou",
+    "nodeAddService_rou", "addFacility_rou", "addSwitch_rou", "invD_addPortMirror", "invS_addPortMirror", "invSN_addPortMirror",
+    "handleOk_of_childrenOf", "inv_addComponentMT", "inv_addComponent_anyHandle", "inv_addStorage_anyHandle", "peer_ok_state", "invS_peerState",
+    "invD_peerState", "namesCore_peerState", "peer_inv", "invS_peer", "invD_peer", "invSN_peer")]
 TRUSTED_BASE = [
     "Model/Topo.lean (hand-mirrored topology API, see C09) - checked differentially call by call, including the four name views",
     "Topo.Inv (Proofs/Lemmas/TopoInv.lean) is the reading of the statement's conjuncts on the model state; edges are read container-first "
@@ -209,7 +217,195 @@ def expected_views(snap):
     return ev
 
 
-def check_views(sess, snap, res, case, opname):
+def _adj(snap):
+    adj = {}
+    for a, b, rel in snap["edges"]:
+        adj.setdefault(tuple(a), []).append((tuple(b), rel))
+        adj.setdefault(tuple(b), []).append((tuple(a), rel))
+    return adj
+
+
+def expected_element_views(snap):
+    """per element, what its views must list (node ids), read off the snapshot alone"""
+    adj = _adj(snap)
+    ev = {}
+
+    def nb(k, rel, cls):
+        return [x for x, r in adj.get(k, []) if (rel is None or r == rel) and x[0] == cls]
+
+    def direct(k):
+        out = []
+        for ns in nb(k, "has", "NetworkService"):
+            out += [x[1] for x in nb(ns, None, "ConnectionPoint") if x != k]
+        return out
+    for n in snap["nodes"]:
+        k = (n[0], n[1])
+        if n[0] == "NetworkNode":
+            comps = nb(k, "has", "Component")
+            ev["node:%s:components" % n[1]] = sorted(x[1] for x in comps)
+            ev["node:%s:network_services" % n[1]] = sorted(x[1] for x in nb(k, "has", "NetworkService"))
+            ev["node:%s:direct_interfaces" % n[1]] = sorted(direct(k))
+            ev["node:%s:interface_list" % n[1]] = sorted(direct(k) + [i for c in comps for i in direct(c)])
+        elif n[0] == "Component":
+            ev["comp:%s:interface_list" % n[1]] = sorted(direct(k))
+            ev["comp:%s:network_services" % n[1]] = sorted(x[1] for x in nb(k, "has", "NetworkService"))
+        elif n[0] == "NetworkService":
+            ev["svc:%s:interface_list" % n[1]] = sorted(x[1] for x in nb(k, "connects", "ConnectionPoint"))
+        elif n[0] == "Link":
+            ev["link:%s:interface_list" % n[1]] = sorted(x[1] for x in nb(k, "connects", "ConnectionPoint"))
+        elif n[0] == "ConnectionPoint" and n[3] == "DedicatedPort":
+            ev["port:%s:interface_list" % n[1]] = sorted(x[1] for x in nb(k, "connects", "ConnectionPoint"))
+    return ev
+
+
+def element_views(t):
+    """the same through the API, every handle looked up afresh; -> (ids per view, per view a function reading it again)"""
+    got, objs = {}, {}
+    ids = lambda seq: sorted(x.node_id for x in seq)
+
+    def view(key, read, record=True):
+        if record:
+            v = read()
+            got[key] = ids(v.values() if hasattr(v, "values") else (v or []))
+        objs[key] = read
+    ports = {}
+    for n in list(t.nodes.values()) + list((t.facilities or {}).values()):
+        view("node:%s:components" % n.node_id, lambda n=n: n.components)
+        view("node:%s:network_services" % n.node_id, lambda n=n: n.network_services)
+        view("node:%s:direct_interfaces" % n.node_id, lambda n=n: n.direct_interfaces)
+        view("node:%s:interface_list" % n.node_id, lambda n=n: n.interface_list)
+        view("node:%s:interfaces" % n.node_id, lambda n=n: n.interfaces, record=False)
+        for i in n.interface_list:
+            ports[i.node_id] = i
+        for c in n.components.values():
+            view("comp:%s:interface_list" % c.node_id, lambda c=c: c.interface_list)
+            view("comp:%s:interfaces" % c.node_id, lambda c=c: c.interfaces, record=False)
+            view("comp:%s:network_services" % c.node_id, lambda c=c: c.network_services)
+    for sv in t.network_services.values():
+        view("svc:%s:interface_list" % sv.node_id, lambda sv=sv: sv.interface_list)
+        view("svc:%s:interfaces" % sv.node_id, lambda sv=sv: sv.interfaces, record=False)
+    for ln in t.links.values():
+        view("link:%s:interface_list" % ln.node_id, lambda ln=ln: ln.interface_list)
+    for pid, port in ports.items():
+        if str(port.type) == "DedicatedPort":
+            view("port:%s:interface_list" % pid, lambda port=port: port.interface_list)
+            view("port:%s:interfaces" % pid, lambda port=port: port.interfaces, record=False)
+    return got, objs
+
+
+def _exec(src, **env):
+    exec(src, {}, env)
+
+
+# every way a dict / a list can be changed in place; `k` = a key (index) that is there when the view is not empty
+DICT_MUTATORS = [
+    ("__setitem__", lambda v, k: v.__setitem__("zz", 1)), ("item-assignment", lambda v, k: _exec("v['zz'] = 1", v=v)),
+    ("__delitem__", lambda v, k: v.__delitem__(k)), ("del-item", lambda v, k: _exec("del v[k]", v=v, k=k)),
+    ("pop", lambda v, k: v.pop(k)), ("popitem", lambda v, k: v.popitem()), ("clear", lambda v, k: v.clear()),
+    ("update", lambda v, k: v.update({"zz": 1})), ("setdefault", lambda v, k: v.setdefault("zz", 1)),
+    ("__ior__", lambda v, k: v.__ior__({"zz": 1})), ("|=", lambda v, k: _exec("v |= {'zz': 1}", v=v)),
+]
+LIST_MUTATORS = [
+    ("append", lambda l: l.append(None)), ("extend", lambda l: l.extend([None])), ("insert", lambda l: l.insert(0, None)),
+    ("item-assignment", lambda l: _exec("l[0] = None", l=l)), ("del-item", lambda l: _exec("del l[0]", l=l)), ("pop", lambda l: l.pop()),
+    ("remove", lambda l: l.remove(l[0])), ("clear", lambda l: l.clear()), ("+=", lambda l: _exec("l += [None]", l=l)),
+    ("sort", lambda l: l.sort(key=id)), ("reverse", lambda l: l.reverse()),
+]
+
+
+def view_kind(key):
+    return key.split(":")[0] + "." + key.split(":")[-1] if ":" in key else key
+
+
+def try_mutations(view_key, v, refresh, res, case):
+    """every in-place mutator on a view object: a dictionary view must refuse it; a list view must refuse it (a tuple cannot be
+    changed at all) or be a copy whose change shows nowhere.  `refresh()` reads the same view afresh."""
+    vk = view_kind(view_key)
+    if v is None:
+        return
+    if hasattr(v, "keys"):
+        before = sorted(v.keys())
+        for an, f in DICT_MUTATORS:
+            k = before[0] if before else "zz"
+            try:
+                f(v, k)
+                raised = False
+            except Exception:
+                raised = True
+            res.evaluations += 1
+            res.count("view-mutator:%s:%s" % ("refused" if raised else "ACCEPTED", an))
+            now = sorted(v.keys())
+            if not raised or now != before:
+                res.violation("C07:views:mutable:%s:%s" % (vk, an), "mutation through view %s via %s did not raise or changed something" % (vk, an),
+                              case, expected={"raises": True, "keys": before}, observed={"raised": raised, "keys": now})
+                return
+        if sorted(refresh().keys()) != before:
+            res.violation("C07:views:mutable:%s:any" % vk, "after the refused mutations view %s reads differently" % vk, case)
+    else:
+        ids = lambda seq: [getattr(x, "node_id", None) for x in seq]
+        before = ids(v)
+        for an, f in LIST_MUTATORS:
+            w = v if isinstance(v, tuple) else refresh()
+            try:
+                f(w)
+                raised = False
+            except Exception:
+                raised = True
+            res.evaluations += 1
+            res.count("list-mutator:%s:%s:%s" % (type(w).__name__, "refused" if raised else "copy-changed", an))
+            if isinstance(v, tuple) and (not raised or ids(v) != before):
+                res.violation("C07:views:mutable:%s:%s" % (vk, an), "the tuple returned by %s accepted %s" % (vk, an), case)
+                return
+            if not isinstance(v, tuple) and ids(refresh()) != before:
+                res.violation("C07:views:mutable:%s:%s" % (vk, an), "changing the list returned by %s via %s shows in the next read of the view" % (vk, an),
+                              case, expected=before, observed=ids(refresh()))
+                return
+
+
+VIEW_KINDS = ("nodes", "facilities", "links", "services")
+
+
+def view_call_list(k0):
+    return [["len", ""], ["keys", ""], ["contains", k0], ["contains", "zz-none"], ["getitem", k0], ["getitem", "zz-none"], ["get", k0]] + \
+        [[m, k0] for m, _ in DICT_MUTATORS] + [["keys", ""], ["len", ""]]
+
+
+def py_view_calls(t):
+    """the calls of view_call_list on one view object of each kind: per call [outcome, sorted keys of the view afterwards]"""
+    out = {}
+    mut = dict(DICT_MUTATORS)
+    with T.det_uuids():
+        for kind in VIEW_KINDS:
+            v = {"nodes": t.nodes, "facilities": t.facilities, "links": t.links, "services": t.network_services}[kind]
+            if v is None:
+                continue
+            k0 = sorted(v.keys())[0] if len(v) else "zz-none"
+            rows = []
+            for c, k in view_call_list(k0):
+                try:
+                    if c == "len":
+                        r = len(v)
+                    elif c == "keys":
+                        r = sorted(v.keys())
+                    elif c == "contains":
+                        r = k in v
+                    elif c == "getitem":
+                        v[k]
+                        r = True
+                    elif c == "get":
+                        r = v.get(k) is not None
+                    else:
+                        mut[c](v, k)
+                        r = None
+                    o = ["ok", r]
+                except Exception as e:
+                    o = ["err", core.err_kind(e)]
+                rows.append([o, sorted(v.keys())])
+            out[kind] = [k0, rows]
+    return out
+
+
+def check_views(sess, snap, res, case, opname, elements=True):
     t = sess.topo
     ev = expected_views(snap)
     names_dup = len(set(ev["nodes"])) != len(ev["nodes"]) or len(set(ev["links"])) != len(ev["links"]) or \
@@ -219,6 +415,7 @@ def check_views(sess, snap, res, case, opname):
             got = {"nodes": sorted(t.nodes.keys()), "facilities": sorted((t.facilities or {}).keys()),
                    "links": sorted(t.links.keys()), "services": sorted(t.network_services.keys()),
                    "interface_list": sorted(i.node_id for i in t.interface_list)}
+            egot, eobjs = element_views(t) if elements and not names_dup else ({}, {})
     except Exception as e:
         res.violation("C07:views:raise:%s:%s" % (core.err_kind(e), opname), "a read-only view raised %s after %s" % (type(e).__name__, opname), case,
                       observed=str(e)[:300])
@@ -229,23 +426,55 @@ def check_views(sess, snap, res, case, opname):
         if ev[k] != got[k]:
             res.violation("C07:views:%s:%s" % (k, opname), "view %s does not list exactly the elements in the model" % k, case,
                           expected=ev[k], observed=got[k])
-    # mutation through a view must raise and change nothing
-    views = {"nodes": t.nodes, "links": t.links, "services": t.network_services, "facilities": t.facilities}
-    for vn, v in views.items():
-        if v is None:
-            continue
-        attempts = {"setitem": lambda: v.__setitem__("zz", 1), "delitem": lambda: v.__delitem__(next(iter(v), "zz")),
-                    "update": lambda: v.update({"zz": 1}), "pop": lambda: v.pop(next(iter(v), "zz")), "clear": lambda: v.clear(),
-                    "setdefault": lambda: v.setdefault("zz", 1)}
-        for an, f in attempts.items():
-            try:
-                f()
-                raised = False
-            except Exception:
-                raised = True
-            after = T.snapshot(t)
-            if not raised or after != snap or sorted(v.keys()) != got[vn]:
-                res.violation("C07:views:mutable:%s:%s" % (vn, an), "mutation through view %s via %s did not raise or changed something" % (vn, an), case)
+    if egot:
+        eev = expected_element_views(snap)
+        name_of = {n[1]: n[2] for n in snap["nodes"]}
+        for k in sorted(egot):
+            res.evaluations += 1
+            res.count("element-view:" + view_kind(k))
+            want = eev.get(k)
+            if want is not None and not k.endswith("_list"):
+                # a name-keyed dictionary shows one element per name (same-named interfaces of two services of a node: known
+                # finding of the name scopes) - it must list elements of the model only, and all of them when the names differ
+                nm = [name_of.get(x) for x in want]
+                if len(set(nm)) != len(nm):
+                    if set(egot[k]) <= set(want) and len(egot[k]) == len(set(nm)):
+                        continue
+            if want != egot[k]:
+                res.violation("C07:views:%s:%s" % (view_kind(k), opname), "view %s does not list exactly the elements in the model" % view_kind(k),
+                              dict(case, view=k), expected=want, observed=egot[k])
+                break
+        # every element that hangs off a node / component / service / link of the model is reached by the views
+        for k in sorted(set(eev) - set(egot)):
+            if not k.startswith("port:"):      # a dedicated port created on a top-level service is in no node's interface list
+                res.violation("C07:views:%s:%s" % (view_kind(k), opname), "no view shows %s" % view_kind(k), dict(case, view=k),
+                              expected=eev[k], observed=None)
+                break
+    # the dictionary protocol of a view agrees with itself (len / iter / in / get / items / values / ==)
+    with T.det_uuids():
+        for vn, v in (("nodes", t.nodes), ("links", t.links), ("services", t.network_services), ("facilities", t.facilities)):
+            if v is None:
+                continue
+            ks = list(v)
+            okp = len(v) == len(ks) == len(list(v.items())) == len(list(v.values())) and all(k in v and v.get(k) is v[k] for k in ks) and \
+                "zz-not-there" not in v and v.get("zz-not-there") is None and list(v.keys()) == ks
+            if not okp:
+                res.violation("C07:views:protocol:%s" % vn, "the reading methods of view %s disagree with each other" % vn, case)
+        # mutation through a view must raise and change nothing
+        views = {"nodes": (t.nodes, lambda: t.nodes), "links": (t.links, lambda: t.links), "services": (t.network_services, lambda: t.network_services),
+                 "facilities": (t.facilities, lambda: t.facilities), "interface_list": (t.interface_list, lambda: t.interface_list)}
+        for vn, (v, refresh) in views.items():
+            try_mutations(vn, v, refresh, res, case)
+        seen_kinds = set()
+        for k in sorted(eobjs):
+            if view_kind(k) in seen_kinds:
+                continue            # one view object of each kind per check
+            seen_kinds.add(view_kind(k))
+            try_mutations(k, eobjs[k](), eobjs[k], res, case)
+    after = T.snapshot(t)
+    if after != snap:
+        res.violation("C07:views:model-changed:%s" % opname, "reading / trying to change the views changed the model", case,
+                      observed=T.snap_diff(snap, after))
 
 
 def non_trivial(steps):
@@ -271,9 +500,10 @@ def scripted(ops):
     return nxt
 
 
-def run_and_check(fl, ops_or_gen, res, label, nmax=None, views_every=3):
+def run_and_check(fl, ops_or_gen, res, label, nmax=None, views_every=3, elements_every=2):
     ops_done = []
     cnt = [0]
+    last = [None]
     script = None if callable(ops_or_gen) else list(ops_or_gen)
     if script is not None:
         ops_or_gen = scripted(script)
@@ -283,19 +513,61 @@ def run_and_check(fl, ops_or_gen, res, label, nmax=None, views_every=3):
         res.evaluations += 1
         res.count("op:" + st["op"]["op"])
         case = {"flavour": fl, "ops": list(ops_done) if script is None else script[:script.index(st["op"]) + 1], "label": label}
-        before = {(r, c) for r, c, _ in check_rules(st["before"])}
-        for rule, cls, detail in check_rules(st["after"]):
+        if last[0] is None or last[0][0] is not st["before"] and last[0][0] != st["before"]:
+            last[0] = (st["before"], check_rules(st["before"]))
+        before = {(r, c) for r, c, _ in last[0][1]}
+        broken_now = check_rules(st["after"])
+        last[0] = (st["after"], broken_now)
+        for rule, cls, detail in broken_now:
             if (rule, cls) in before:
                 continue            # report a breach at the call that introduced it
             res.violation("C07:%s:%s:%s" % (rule, cls, st["op"]["op"]), "after %s the model breaks rule '%s' (%s)" % (st["op"]["op"], rule, cls),
                           case, observed=detail)
         cnt[0] += 1
-        if cnt[0] % views_every == 0 and not check_rules(st["after"]):
-            check_views(sess, st["after"], res, case, st["op"]["op"])
+        if cnt[0] % views_every == 0 and not broken_now:
+            check_views(sess, st["after"], res, case, st["op"]["op"], elements=(cnt[0] // views_every) % elements_every == 0)
     steps = c09.run_history(fl, ops_or_gen, on_step=on_step, nmax=nmax)
     if non_trivial(steps):
         res.nontrivial.add(core.sha(canon([s["op"]["op"] for s in steps])))
     return steps
+
+
+def history_gen(rng, fault, ext):
+    """op generator for run_history: lib_topo's menu (with the second alphabet when `ext`), plus - with small probability -
+    the adversarial variants the shared generator never draws: a name that is already taken by a sibling (rename excepted:
+    known finding), an id that is already in the model, a removal right after the creation"""
+    names = T.Names(rng)
+    last_created = [None]
+
+    def nxt(sess):
+        op = T.gen_op(rng, sess, names, fault, ext=ext)
+        r = rng.random()
+        k = op["op"]
+        if r < 0.10 and k in ("add_node", "add_facility", "add_switch"):
+            taken = [h.obj.name for h in sess.of_kind("node") if sess.alive(h)]
+            if taken:
+                op = dict(op, name=rng.choice(taken), fault="c07:taken-name")
+        elif r < 0.10 and k in ("add_component", "add_storage", "add_component_mt") and op.get("parent") in sess.handles:
+            try:
+                taken = list(sess.handles[op["parent"]].obj.components.keys())
+            except Exception:
+                taken = []
+            if taken:
+                op = dict(op, name=rng.choice(taken), fault="c07:taken-name")
+        elif r < 0.10 and k in ("add_service", "add_port_mirror"):
+            taken = [h.obj.name for h in sess.of_kind("svc") if sess.alive(h) and T._is_top(sess, h)]
+            if taken:
+                op = dict(op, name=rng.choice(taken), fault="c07:taken-name")
+        elif r < 0.10 and k == "add_link":
+            taken = [h.obj.name for h in sess.of_kind("link") if sess.alive(h)]
+            if taken:
+                op = dict(op, name=rng.choice(taken), fault="c07:taken-name")
+        elif r < 0.08 and op.get("nid") is not None and k.startswith("add"):
+            ids = [h.obj.node_id for h in sess.handles.values() if sess.alive(h)]
+            if ids:
+                op = dict(op, nid=rng.choice(ids), fault="c07:taken-id")
+        return op
+    return nxt
 
 
 def deterministic_cases():
@@ -348,6 +620,109 @@ def deterministic_cases():
     return out
 
 
+def interleaved_cases():
+    """additions and removals interleaved around the second alphabet: carriers of sub-interfaces removed after
+    add_child_interface (child connected / not connected / removed first), elements removed while their ports are peered or
+    mirrored, rename / set / unset on every element kind"""
+    base = c09.base_ops("exp")          # h0 n1, h1 n2, h2 nic1 (ports h3 h4), h5 nic2 (ports h6 h7), h8 shnic (port h9)
+    lab = lambda v: ["labels", ["lab", {"vlan": v}]]
+    out = []
+    kids = base + [
+        {"op": "add_child_interface", "port": "h3", "name": "sub1", "kw": [lab("101")]},                           # h10
+        {"op": "add_child_interface", "port": "h3", "name": "sub2", "kw": [lab("102"), ["capacities", ["cap", {"bw": 1}]]]},  # h11
+        {"op": "add_child_interface", "port": "h6", "name": "sub3", "kw": [lab("103")]}]                           # h12
+    rms = (("remove_component", {"op": "remove_component", "parent": "h0", "name": "nic1"}),
+           ("remove_node", {"op": "remove_node", "name": "n1"}), ("remove_other_node", {"op": "remove_node", "name": "n2"}))
+    for tag, rm in rms:
+        out.append(("x/children-unconnected/" + tag, "exp", kids + [rm]))
+        out.append(("x/children-connected/" + tag, "exp", kids + [
+            {"op": "add_service", "name": "sk", "nstype": "L2Bridge", "ifs": ["h10", "h12"], "kw": []}, rm,     # h13
+            {"op": "add_service", "name": "sz", "nstype": "L2Bridge", "ifs": ["h11"], "kw": []}]))
+        out.append(("x/child-removed-first/" + tag, "exp", kids + [
+            {"op": "remove_child_interface", "port": "h3", "name": "sub1"}, rm]))
+    out.append(("x/children/service-removed-then-child", "exp", kids + [
+        {"op": "add_service", "name": "sk", "nstype": "L2Bridge", "ifs": ["h10", "h7"], "kw": []},               # h13
+        {"op": "remove_service", "name": "sk"},
+        {"op": "remove_child_interface", "port": "h3", "name": "sub1"},
+        {"op": "add_child_interface", "port": "h3", "name": "sub1", "kw": [lab("101")]},
+        {"op": "remove_component", "parent": "h0", "name": "nic1"}]))
+    out.append(("x/children/disconnect-then-remove", "exp", kids + [
+        {"op": "add_service", "name": "sk", "nstype": "L2Bridge", "ifs": ["h10", "h7"], "kw": []},               # h13
+        {"op": "disconnect", "svc": "h13", "if": "h10"},
+        {"op": "remove_link", "name": "n2-nic2-p2-link"},
+        {"op": "remove_component", "parent": "h0", "name": "nic1"}]))
+    sw = base + [{"op": "add_switch", "name": "sw1", "site": "RENC", "nports": 2},                                 # h10; ports h11 h12
+                 {"op": "add_child_interface", "port": "h11", "name": "sub1", "kw": [lab("101")]},                 # h13
+                 {"op": "add_child_interface", "port": "h11", "name": "sub2", "kw": [lab("102")]},                 # h14
+                 {"op": "add_child_interface", "port": "h12", "name": "sub3", "kw": [lab("103")]}]                 # h15
+    out.append(("x/switch-children/remove_switch", "exp", sw + [
+        {"op": "add_service", "name": "sk", "nstype": "L2Bridge", "ifs": ["h13", "h3"], "kw": []}, {"op": "remove_switch", "name": "sw1"}]))
+    out.append(("x/switch-children/node_remove_service", "exp", sw + [
+        {"op": "add_service", "name": "sk", "nstype": "L2Bridge", "ifs": ["h13", "h3"], "kw": []},
+        {"op": "node_remove_service", "parent": "h10", "name": "sw1-ns"}]))
+    out.append(("x/switch-children/props-on-child", "exp", sw + [
+        {"op": "set_props", "h": "h13", "kw": [["capacities", ["cap", {"bw": 25}]]]},
+        {"op": "unset_prop", "h": "h13", "pname": "capacities"}, {"op": "rename", "h": "h13", "name": "subr"},
+        {"op": "remove_child_interface", "port": "h11", "name": "subr"}, {"op": "remove_switch", "name": "sw1"}]))
+    two = base + [{"op": "add_service", "name": "sa", "nstype": "L3VPN", "ifs": ["h3"], "kw": []},                 # h10
+                  {"op": "add_service", "name": "sb", "nstype": "L3VPN", "ifs": ["h6"], "kw": []},                 # h11
+                  {"op": "peer", "svc": "h10", "other": "h11", "kw": [["labels", ["lab", {"vlan": "300"}]]]}]
+    for tag, rm in (("remove_service", [{"op": "remove_service", "name": "sb"}]), ("unpeer", [{"op": "unpeer", "svc": "h11", "other": "h10"}]),
+                    ("remove_link", [{"op": "remove_link", "name": "sa-sb-link"}]),
+                    ("remove_node-of-a-connected-port", [{"op": "remove_node", "name": "n1"}, {"op": "remove_service", "name": "sa"}]),
+                    ("remove_component-then-unpeer", [{"op": "remove_component", "parent": "h1", "name": "nic2"}, {"op": "unpeer", "svc": "h10", "other": "h11"}])):
+        out.append(("x/peered/" + tag, "exp", two + rm))
+    pm = base + [{"op": "add_port_mirror", "name": "pm1", "to": "h4", "from_name": "nic2-p1", "from_vlan": None, "direction": "Both", "kw": []}]  # h10
+    for tag, rm in rms:
+        out.append(("x/mirrored/" + tag, "exp", pm + [rm]))
+    out.append(("x/mirrored/remove_service", "exp", pm + [{"op": "remove_service", "name": "pm1"}]))
+    # rename / set / unset on every element kind (node, component, service, interface, link, facility, switch, storage)
+    every = base + [{"op": "add_service", "name": "s1", "nstype": "L2Bridge", "ifs": ["h3"], "kw": []},            # h10
+                    {"op": "add_link", "name": "l1", "ltype": "L2Path", "ifs": ["h4", "h6"], "kw": []},            # h11
+                    {"op": "add_facility", "name": "fac", "site": "RENC", "kw": []},                               # h12; interface h13
+                    {"op": "add_switch", "name": "sw1", "site": "UKY", "nports": 1},                               # h14; port h15
+                    {"op": "add_storage", "parent": "h0", "name": "st1", "kw": [["labels", ["lab", {"local_name": "vol"}]]]}]  # h16
+    ren = []
+    kinds = {"h0": "node", "h2": "comp", "h10": "svc", "h3": "iface", "h11": "link", "h12": "node", "h13": "iface", "h14": "node",
+             "h15": "iface", "h16": "comp"}
+    for i, h in enumerate(kinds):
+        kind = kinds[h]
+        ren += [{"op": "set_props", "h": h, "kw": [T.GOOD_KW[kind][0]]}, {"op": "rename", "h": h, "name": "rn%d" % i},
+                {"op": "unset_prop", "h": h, "pname": T.GOOD_KW[kind][0][0]}, {"op": "unset_prop", "h": h, "pname": "name"}]
+    out.append(("x/props-on-every-kind", "exp", every + ren + [{"op": "remove_node", "name": "rn0"}, {"op": "remove_switch", "name": "rn7"},
+                                                               {"op": "remove_facility", "name": "rn5"}]))
+    subb = c09.base_ops("sub")
+    out.append(("x/sub/children-and-removals", "sub", subb + [
+        {"op": "add_child_interface", "port": "h3", "name": "sub1", "nid": "sub1id", "kw": [lab("101")]},         # h10
+        {"op": "add_child_interface", "port": "h3", "name": "sub2", "nid": "sub2id", "kw": [lab("102")]},         # h11
+        {"op": "add_link", "name": "l1", "nid": "l1id", "ltype": "L2Path", "ifs": ["h10", "h6"], "kw": []},
+        {"op": "add_component_mt", "parent": "h1", "name": "mx", "nid": "mxid", "model_type": "SmartNIC_ConnectX_6", "ns_nid": "mxns",
+         "if_nids": ["mxi1", "mxi2"], "n_labels": 2, "kw": []},
+        {"op": "remove_component", "parent": "h0", "name": "nic1"}, {"op": "remove_node", "name": "n2"}]))
+    return out
+
+
+def retype_cases():
+    """set_property / set_properties with the keywords `name` and `type`: the generic property setter writes Name and Type like
+    any other property - no uniqueness guard, no look at what the element is connected to (known findings)"""
+    base = c09.base_ops("exp")
+    return [
+        ("set-name-to-taken/node", "exp", base + [{"op": "set_props", "h": "h1", "kw": [["name", ["str", "n1"]]]}]),
+        ("set-name-to-taken/component", "exp", base + [{"op": "set_props", "h": "h8", "kw": [["name", ["str", "nic1"]]]}]),
+        ("set-name-to-taken/interface", "exp", base + [
+            {"op": "node_add_service", "parent": "h0", "name": "nsa", "nstype": "OVS", "kw": []},                    # h10
+            {"op": "ns_add_interface", "svc": "h10", "name": "ia", "itype": "TrunkPort", "kw": []},                  # h11
+            {"op": "ns_add_interface", "svc": "h10", "name": "ib", "itype": "TrunkPort", "kw": []},                  # h12
+            {"op": "set_props", "h": "h12", "single": False, "kw": [["name", ["str", "ia"]], ["capacities", ["cap", {"bw": 25}]]]}]),
+        ("set-type/service-port", "exp", base + [{"op": "set_props", "h": "h3", "kw": [["type", ["enum", "InterfaceType", "ServicePort"]]]}]),
+        ("set-type/facility-and-back", "exp", base + [
+            {"op": "set_props", "h": "h1", "kw": [["type", ["enum", "NodeType", "Facility"]]]},
+            {"op": "add_node", "name": "n3", "site": "RENC", "ntype": "VM", "kw": []},
+            {"op": "set_props", "h": "h1", "kw": [["type", ["enum", "NodeType", "VM"]]]},
+            {"op": "remove_node", "name": "n2"}]),
+    ]
+
+
 def corpus_cases():
     out = []
     for fn in sorted(glob.glob(os.path.join(CORPUS, "*.json"))):
@@ -359,16 +734,23 @@ def corpus_cases():
 
 def correspondence(ctx, res):
     hs = []
-    for name, fl, ops in corpus_cases() + deterministic_cases():
-        hs.append(c09.run_history(fl, scripted(ops)))
+    def grab(sess, st, cnt=[0]):
+        cnt[0] += 1
+        if cnt[0] % 4 == 0:
+            names = [n[2] for n in st["after"]["nodes"] if n[0] in ("NetworkNode", "Link", "NetworkService")]
+            if len(set(names)) == len(names):          # a name-keyed dictionary over same-named elements: known findings, not modelled
+                st["viewcalls"] = py_view_calls(sess.topo)
+    for name, fl, ops in corpus_cases() + deterministic_cases() + interleaved_cases():
+        hs.append(c09.run_history(fl, scripted(ops), on_step=grab))
     n = ctx.scale(24, 110)
     for i in range(n):
         fl = "exp" if i % 4 else "sub"
-        hs.append(c09.random_history(ctx, "c07corr/%d" % i, fl, ctx.scale(25, 40), 0.15))
+        # every second history also draws from the second alphabet (sub-interfaces, peer/unpeer, port mirror, model_type=, prune)
+        hs.append(c09.run_history(fl, history_gen(ctx.sub_rng("c07corr/%d" % i), 0.15, ext=(i % 2 == 1)), nmax=ctx.scale(25, 40), on_step=grab))
     c09.compare_with_model(hs, res)
     # the views as pure functions of the state, and the verdict of every conjunct of Topo.Inv on every state of the run:
     # the model's (Lean predicate on the model state) against the oracle's (published rules on the implementation's graph)
-    hsel = hs[: ctx.scale(45, 150)]
+    hsel = hs[: ctx.scale(75, 190)]
     for lo in range(0, len(hsel), 60):
         lines, want = [], []
         for h in hsel[lo:lo + 60]:
@@ -383,6 +765,9 @@ def correspondence(ctx, res):
                 want.append(None)
                 lines.append(json.dumps({"op": "inv"}))
                 want.append(("inv", py_verdicts(st["after"]), {"ops": [x["op"] for x in h[:i + 1]], "flavour": st["line"]["fl"]}))
+                for kind, (k0, rows) in (st.get("viewcalls") or {}).items():
+                    lines.append(json.dumps({"op": "view_calls", "view": kind, "calls": view_call_list(k0)}))
+                    want.append(("viewcalls", rows, {"view": kind, "key": k0, "ops": [x["op"] for x in h[:i + 1]]}))
             lines.append(json.dumps({"op": "views"}))
             ev = expected_views(h[-1]["after"])
             want.append(("views", {k: ev[k] for k in ("nodes", "facilities", "links", "services")}, None))
@@ -398,6 +783,13 @@ def correspondence(ctx, res):
                 pending = (w[1], j[1])
                 for k in ("coveredS", "coveredD", "coveredN"):
                     res.count("%s:%s:%s" % (k, "yes" if j[1][k] else "no", w[1]))
+                continue
+            if w[0] == "viewcalls":
+                got = [[x[0][:1] + [sorted(x[0][1]) if isinstance(x[0][1], list) else x[0][1]], sorted(x[1])] for x in j[1]]
+                for (c, _), a, b in zip(view_call_list(w[2]["key"]), w[1], got):
+                    res.count("view-call:%s:%s" % (c, a[0][0] if a[0][0] == "ok" else a[0][1]))
+                if got != w[1]:
+                    res.disagreements.append({"case": dict(w[2], what="a call on a read-only view behaves differently"), "impl": w[1], "model": got})
                 continue
             if w[0] == "views":
                 res.count("op:views")
@@ -534,12 +926,17 @@ def oracle(ctx, res, budget=None):
         run_and_check(fl, ops, res, "corpus:" + name, views_every=1)
     for name, fl, ops in deterministic_cases():
         run_and_check(fl, ops, res, name, views_every=1)
-    n = budget or ctx.scale(30, 200)
+    for name, fl, ops in interleaved_cases():
+        run_and_check(fl, ops, res, name, views_every=ctx.scale(2, 1), elements_every=ctx.scale(2, 1))
+    if budget is None:
+        for fl in ctx.scale(("exp",), ("exp", "sub")):         # C09's scripted failing calls of the second alphabet: the rules hold after each of them too
+            for tag, ops in c09.extension_cases(fl, c09.base_ops(fl)):
+                run_and_check(fl, ops, res, "c09ext:" + tag, views_every=ctx.scale(5, 2))
+    n = budget or ctx.scale(24, 200)
     for i in range(n):
         fl = "exp" if i % 4 else "sub"
-        rng = ctx.sub_rng("c07oracle/%d" % i)
-        names = T.Names(rng)
-        run_and_check(fl, lambda sess: T.gen_op(rng, sess, names, 0.15), res, "random", nmax=ctx.scale(25, 40))
+        run_and_check(fl, history_gen(ctx.sub_rng("c07oracle/%d" % i), 0.15, ext=(i % 3 != 0)), res, "random", nmax=ctx.scale(25, 40),
+                      views_every=ctx.scale(4, 3))
     oracle_children(ctx, res, ctx.scale(12, 80) if budget is None else budget // 4)
     res.sample({"oracle": "rules of graph_validation_rules.json (minus the two slice cardinality rules) + containment + name scopes on the "
                           "extracted graph after every call; views vs class listings; mutation through views"})
